@@ -139,6 +139,12 @@ package lexer
 //@   axiom
 //@   requires cutok(a, b)
 //@   ensures rcount(a + b) == rcount(a) + rcount(b)
+//@ lemma emptyFacts()
+//@   axiom
+//@   ensures nlc("") == 0 && lastnl("") == -1 && rcount("") == 0
+//@ lemma regexpSpanCut(prefix string, span string)
+//@   axiom
+//@   ensures cutok(prefix, span)
 //@ lemma rcAfterNL(s string)
 //@   axiom
 //@   requires lastnl(s) >= 0
@@ -168,6 +174,8 @@ package lexer
 //@ pred ruleOK(r compiledRule) = !typeis(r.Action, include) && (r.RE != nil ==> uf("re_anchored", "Bool", r.RE))
 //@ pred rulesOK(d *StatefulDefinition) = !d.matchLongest && foralls(s, forall(i, 0, len(d.rules[s]), ruleOK(d.rules[s][i])))
 //@ pred slInv(l *StatefulLexer) = l.def != nil && len(l.stack) >= 1 && rulesOK(l.def)
+// posInv: the lexer sits at l.pos.Offset of the input text "in" given to LexString, with exact line/column, file name fn.
+//@ pred posInv(l *StatefulLexer, in string, fn string) = posOK(in, l.pos) && l.data == in[l.pos.Offset:] && l.pos.Filename == fn
 
 //@ interface Action.applyAction
 //@   params a, lexer, groups
@@ -196,6 +204,13 @@ package lexer
 //@   ensures result == nil ==> lexer.stack[len(lexer.stack)-1].groups == groups
 //@   ensures result == nil ==> forall(k, 0, len(old(lexer.stack)), lexer.stack[k] == old(lexer.stack[k]))
 
+//@ func (*StatefulDefinition).LexString [C04 C07 C15]
+//@   ensures result1 == nil && typeis(result0, *StatefulLexer) && fresh(result0)
+//@   ensures rulesOK(d) ==> slInv(result0.(*StatefulLexer))
+//@   ensures posInv(result0.(*StatefulLexer), s, filename) && result0.(*StatefulLexer).pos == Position{filename, 0, 1, 1}
+//@   ensures len(result0.(*StatefulLexer).stack) == 1 && result0.(*StatefulLexer).stack[0].name == "Root" && result0.(*StatefulLexer).def == d
+//@   use emptyFacts() at exit
+
 //@ func (*StatefulLexer).Next [C07 C04 C03 C06]
 //@   requires slInv(l)
 //@   modifies l.stack, l.data, l.pos
@@ -203,6 +218,14 @@ package lexer
 //@   ensures old(l.data) == "" ==> result1 == nil && result0.Type == EOF && result0.Value == "" && result0.Pos == old(l.pos)
 //@   ensures old(l.data) == "" ==> l.stack == old(l.stack) && l.data == old(l.data) && l.pos == old(l.pos)
 //@   ensures result1 == nil ==> (result0.Type == EOF && result0.Value == "" && l.data == "" && result0.Pos == l.pos) || (len(result0.Value) > 0 && len(l.data) + len(result0.Value) <= len(old(l.data)))
+//@   ghost in string, fn string
+//@   ensures @posInv old(posInv(l, in, fn)) ==> posInv(l, in, fn) [C04]
+//@   ensures @tokpos old(posInv(l, in, fn)) && result1 == nil ==> posOK(in, result0.Pos) && result0.Pos.Filename == fn && old(l.pos.Offset) <= result0.Pos.Offset [C04 C06]
+//@   ensures @tokval old(posInv(l, in, fn)) && result1 == nil && len(result0.Value) > 0 ==> result0.Value == in[result0.Pos.Offset:l.pos.Offset] && l.pos.Offset == result0.Pos.Offset + len(result0.Value) [C04]
+//@   ensures @eofpos old(posInv(l, in, fn)) && result1 == nil && len(result0.Value) == 0 ==> result0.Pos.Offset == len(in) [C04]
+//@   bind (*lexer.Position).Advance#1 in = in
+//@   use regexpSpanCut(in[lineStart(in, l.pos.Offset):l.pos.Offset], span) at call (*lexer.Position).Advance#1
+//@   loop 1 invariant old(posInv(l, in, fn)) ==> posInv(l, in, fn) && old(l.pos.Offset) <= l.pos.Offset
 //@   loop 1 invariant slInv(l) && len(l.data) <= len(old(l.data))
 //@   loop 1 invariant rules == l.def.rules[l.stack[len(l.stack)-1].name]
 //@   loop 1 invariant old(l.data) == "" ==> l.stack == old(l.stack) && l.pos == old(l.pos)
